@@ -13,6 +13,13 @@ def rnd(name, bin_, quick, thorough, **kw):
     return d
 
 
+def fz(bin_, thorough_s, **kw):
+    """coverage-guided stage (libFuzzer, -fork=16) on the same verif_case(); thorough tier only"""
+    d = dict(name="libfuzzer", bin=bin_, kind="fuzz", variant="fuzz", seconds=dict(quick=0, thorough=thorough_s), tiers=("thorough",))
+    d.update(kw)
+    return d
+
+
 CHECKS = {
     "C07": dict(
         title="ring buffer capacity contract + sequential FIFO",
@@ -22,7 +29,8 @@ CHECKS = {
         level_text="seeded random operation sequences over all sizes/flag sets compared step by step with a deque model; "
                    "finds violations reachable by bounded op lists, proves nothing about unexplored ones",
         level_note="trusted: the harness model (deque + capacity arithmetic), ASan/UBSan, the decoder's distribution",
-        stages=[rnd("seq", "c07", 500000, 10000000, essential=["wrapped", "straddle", "exact_fit", "refused", "marker_payload", "enobufs", "empty_read", "full_S_chunk"])],
+        stages=[rnd("seq", "c07", 500000, 10000000, essential=["wrapped", "straddle", "exact_fit", "refused", "marker_payload", "enobufs", "empty_read", "full_S_chunk"]),
+                fz("c07", 240)],
         assumptions=["single-threaded use (concurrent use is C01's subject)"],
     ),
     "C20": dict(
@@ -33,7 +41,8 @@ CHECKS = {
         level_text="seeded random op lists over three databases (live, dead, forged and reused handles) compared after every op with a slot/generation/refcount model, "
                    "including 'a refused op changed nothing' checked on every other live object",
         level_note="trusted: the model; random() is interposed so check words never repeat within a case (the 2^-31 collision inherent in the handle design is out of scope)",
-        stages=[rnd("ops", "c20", 1500000, 30000000, essential=["slot_reused", "stale_after_reuse", "destroy_with_refs", "bogus_handle", "iterate", "over_put_free", "second_destroy"])],
+        stages=[rnd("ops", "c20", 1500000, 30000000, essential=["slot_reused", "stale_after_reuse", "destroy_with_refs", "bogus_handle", "iterate", "over_put_free", "second_destroy"]),
+                fz("c20", 240)],
         assumptions=["single-threaded use", "no-check handles (qb_hdb_nocheck_convert) are not generated: the statement does not cover them"],
     ),
     "C17": dict(
@@ -45,7 +54,8 @@ CHECKS = {
                    "(multiset of callbacks with event, key, old and new value, user data; FREE exactly once per value that leaves, FREE last)",
         level_note="trusted: the dictionary/notifier model (attachment rules read from the three *_notify_add functions and qbmap.h); keys handed to the map are heap copies "
                    "freed in the FREE notifier, so ASan sees any later use by the library",
-        stages=[rnd("ops", "c17", 600000, 12000000, essential=["hashtable", "skiplist", "trie", "rm_absent_prefix_related", "abandoned_traversal", "prefix_iteration", "notifier_registered", "map_emptied"])],
+        stages=[rnd("ops", "c17", 600000, 12000000, essential=["hashtable", "skiplist", "trie", "rm_absent_prefix_related", "abandoned_traversal", "prefix_iteration", "notifier_registered", "map_emptied"]),
+                fz("c17", 240)],
         assumptions=["single-threaded use", "the empty string is never used as a key (not documented as valid)", "values are non-NULL (NULL means absent in this API)",
                      "trie order is checked as ascending in signed-char order, skiplist in strcmp order",
                      "hashtable notifiers subscribe only to DELETED/REPLACED/FREE (qbmap.h: hashtable does not support insert notifications)",
@@ -60,7 +70,8 @@ CHECKS = {
                    "per-iterator obligations (every key present throughout is returned, exactly once without insertions; nothing never-present), dictionary agreement while iterators are open, "
                    "full C17 comparison once they are gone",
         level_note="trusted: the model; notifications about values whose deletion may be deferred are left out of the accounting if the notifier set changes meanwhile (the statement does not fix which set applies)",
-        stages=[rnd("iters", "c18", 600000, 12000000, essential=["hashtable", "skiplist", "trie", "abandoned_iterator", "iters_freed_compare", "parked_removed", "aimed_rm", "map_emptied"])],
+        stages=[rnd("iters", "c18", 600000, 12000000, essential=["hashtable", "skiplist", "trie", "abandoned_iterator", "iters_freed_compare", "parked_removed", "aimed_rm", "map_emptied"]),
+                fz("c18", 240)],
         assumptions=["single-threaded use", "a map is never destroyed while iterators are open on it",
                      "a trie prefix iterator is held to its prefix only while nothing was inserted during the iteration"],
     ),
@@ -73,7 +84,8 @@ CHECKS = {
                    "comes out must be a written one, in order, gap-free up to the newest, and never fewer than the newest chunks that fit S",
         level_note="trusted: the model (set of possible consumed boundaries, so byte-identical chunks cannot cause a wrong guess), ASan/UBSan",
         stages=[rnd("ring", "c11", 250000, 5000000, essential=["wrapped_twice", "multi_reclaim", "snapshot_after_wrap", "semaphore", "near_capacity_chunk", "read_after_overwrite", "full_S_chunk", "peek"]),
-                rnd("blackbox", "c11b", 6000, 300000, essential=["wrapped_and_dropped", "dump_mid_sequence", "too_long_record", "many_records"])],
+                rnd("blackbox", "c11b", 6000, 300000, essential=["wrapped_and_dropped", "dump_mid_sequence", "too_long_record", "many_records"]),
+                fz("c11", 240)],
         assumptions=["single writer/reader thread", "snapshots need the private /dev/shm namespace (qb_rb_create_from_file uses a fixed name)"],
     ),
     "C19": dict(
@@ -85,7 +97,8 @@ CHECKS = {
                    "for 2-3 threads whose interleaving is owned by a cooperative scheduler with a yield point at every compiler-instrumented access in array.c and at the grow lock",
         level_note="trusted: the model; concurrent part explores sequentially-consistent interleavings only (no hardware reordering), schedules are sampled, not enumerated",
         stages=[rnd("seq", "c19", 500000, 10000000, essential=["table_realloc_then_recheck", "autogrow", "range_error", "bin_boundary", "top_of_range", "negative_index", "grow_rejected", "new_bin_cb"]),
-                rnd("conc", "c19c", 60000, 1500000, variant="sched", essential=["switch_inside_index", "switch_inside_grow", "table_realloc", "three_threads", "autogrow"])],
+                rnd("conc", "c19c", 60000, 1500000, variant="sched", essential=["switch_inside_index", "switch_inside_grow", "table_realloc", "three_threads", "autogrow"]),
+                fz("c19", 240)],
         assumptions=["concurrent stage: interleavings are sequentially consistent at the granularity of individual accesses; weak-memory effects are invisible"],
     ),
     "C01": dict(
@@ -111,7 +124,8 @@ CHECKS = {
         level_text="formats generated from a grammar over every supported conversion/flag/width/precision/length modifier with matching extreme argument values are encoded into and decoded from "
                    "heap buffers of exactly the stated sizes; complete records must decode to vsnprintf's text, the encoder must report exactly the size the record needs, and neither side may write out of bounds",
         level_note="trusted: glibc vsnprintf as the reference, the harness's size model of a record (format + NUL + argument bytes), ASan; integer-class arguments travel as long through the variadic call (x86-64 SysV)",
-        stages=[rnd("diff", "c14", 1500000, 30000000, essential=["mixed_classes", "precision_or_star", "encoder_limit_hit", "decoder_limit_hit", "exact_fit_encoder", "null_string", "percent_in_string", "long_literal", "special_double", "length_modifier", "roundtrip_compared", "extended_marker"])],
+        stages=[rnd("diff", "c14", 1500000, 30000000, essential=["mixed_classes", "precision_or_star", "encoder_limit_hit", "decoder_limit_hit", "exact_fit_encoder", "null_string", "percent_in_string", "long_literal", "special_double", "length_modifier", "roundtrip_compared", "extended_marker"]),
+                fz("c14", 240)],
         assumptions=["C locale", "NULL passed to %s is rendered as (null) by the reference", "h/hh/L modifiers and wide characters are outside the property's list and are not generated",
                      "a record is only decoded when the encoder reported it complete (return < limit), as the blackbox does"],
     ),
@@ -158,6 +172,7 @@ CHECKS = {
                      "custom targets only; syslog/stderr/file/blackbox targets route through the same code"],
     ),
     "C16": dict(
+        timing_dependent=True,
         title="threaded logging: every queued message once, in order, before fini; control ops safe",
         level="exploration",
         design_ref="DESIGN.md section 4, C16",
@@ -263,17 +278,18 @@ CHECKS = {
                      "a clean rejection (dropping the offending connection) is a correct outcome"],
     ),
     "C03": dict(
+        timing_dependent=True,
         title="IPC: death of the peer at any point is detected and fully cleaned up",
         level="fault_enumeration",
         design_ref="DESIGN.md section 4, C03",
         technique="crash-point enumeration + property testing: the dying peer is a forked process running the real client/server and stopping at the boundary of its K-th libc call (link-time interposition), every K enumerated for fixed scripts and drawn at random for generated ones; oracle = callback automaton, residue (descriptors, loop registrations, /dev/shm), control-client liveness, deadlines of client calls",
         level_text="part A: a forked real client (connect, answered requests, requests left queued, events, disconnect or plain exit) stops just before its K-th libc call, optionally after a prefix of a send; the "
                    "server (in-process, stepped by the case) must run destroyed exactly once for it (closed first iff created), keep serving the control client, and be back at the baseline of descriptors, loop "
-                   "registrations and /dev/shm entries; every K of 4 fixed scripts x 2 transports is enumerated, generated scripts draw K. part B: a forked real server stops before its K-th libc call (or is SIGKILLed between "
-                   "two client calls); the client's timed calls must return by their deadline (+1.5 s slack), infinite waits must end with a disconnect error within 2 x QB_IPC_MAX_WAIT_MS + 1.5 s of the death, later calls must "
-                   "fail, and after qb_ipcc_disconnect no file is left below /dev/shm; every K of 3 fixed client scripts x 2 transports is enumerated",
+                   "registrations and /dev/shm entries; every K of 4 fixed scripts x 2 transports is enumerated, as are the three server callbacks during which the client can be killed and every proper prefix (1..23 bytes) of the handshake request; generated scripts draw K. part B: a forked real server stops before its K-th libc call (or is SIGKILLed between "
+                   "two client calls); the client's timed calls must return by their deadline (+3 s slack), infinite waits must end with a disconnect error within 2 x QB_IPC_MAX_WAIT_MS + 3 s of the death, later calls must "
+                   "fail, and after qb_ipcc_disconnect no file is left below /dev/shm; every K of 3 fixed client scripts x 2 transports is enumerated, plus 12 prefix lengths of the handshake response",
         level_note="crash points are libc-call boundaries of the dying process (27 interposed functions) plus SIGKILL between client calls; two real processes, so the interleaving of survivor and victim is the kernel's "
-                   "(failures are confirmed by repetition); wall-clock bounds carry a 1.5 s slack; the empty per-connection directory that the shm client leaves after a server death is not counted (the statement speaks of files)",
+                   "(failures are confirmed by repetition); wall-clock bounds carry a 3 s slack; the empty per-connection directory that the shm client leaves after a server death is not counted (the statement speaks of files)",
         stages=[rnd("death", "c03", 6000, 150000, essential=["A_died_during_handshake", "A_died_connected_idle", "A_died_with_requests_queued", "A_died_mid_request", "A_died_in_disconnect", "A_completed", "A_partial_send",
                                                                "B_died_before_ready", "B_died_during_handshake", "B_died_while_client_waited_forever", "B_died_while_client_waited_finite", "B_killed_between_calls",
                                                                "B_survived", "B_later_call_checked", "B_shm_cleanup_checked", "shm", "socket"])],
@@ -281,6 +297,7 @@ CHECKS = {
                      "a dying process stops between libc calls, or after a prefix of a send; it does not corrupt shared memory on its way out"],
     ),
     "C05": dict(
+        timing_dependent=True,
         title="IPC admission: only accepted peers get channels; their files stay private",
         level="exploration",
         design_ref="DESIGN.md section 4, C05",
